@@ -31,8 +31,19 @@ def main():
     patch, checks = os.path.abspath(args[0]), args[1:]
     wt = tempfile.mkdtemp(prefix="mutwt-", dir="/tmp")
     os.rmdir(wt)
-    subprocess.run(["git", "-C", "/repo", "worktree", "add", "-q", "--detach", wt, "HEAD"], check=True)
+    ok = False
+    for base in ("HEAD", "5450e19", "22a8020"):
+        subprocess.run(["git", "-C", "/repo", "worktree", "add", "-q", "--detach", wt, base], check=True)
+        if subprocess.run(["git", "-C", wt, "apply", "--check", patch], capture_output=True).returncode == 0:
+            ok = True
+            if base != "HEAD":
+                print("(patch applied to the older commit %s it was written against)" % base)
+            break
+        subprocess.run(["git", "-C", "/repo", "worktree", "remove", "--force", wt])
     rc_all = {}
+    if not ok:
+        print("PATCH DOES NOT APPLY to HEAD / 5450e19 / 22a8020")
+        return 3
     try:
         p = subprocess.run(["git", "-C", wt, "apply", patch], capture_output=True, text=True)
         if p.returncode != 0:
